@@ -130,7 +130,7 @@ def make_classes():
             i = ENV.cursor.get(self.w, 0)
             if i < len(sc):
                 ENV.cursor[self.w] = i + 1
-                ev = FileModifiedEvent(f"/w{self.w}/e{sc[i]}")
+                ev = mk_event(self.w, sc[i])
                 n0 = ENV.nputs
                 ENV.s.log("put_begin", self.serial, self.w, sc[i], i)
                 self.queue_event(ev)
@@ -394,13 +394,58 @@ def run_program(prog, chooser, max_steps=6000):
     return s
 
 
+NVAR = 8     # variants per base event: ids base*8+v; ids v, v' of one base differ in exactly the field named below
+
+
+def mk_event(w, x):
+    """Scripted event id -> event.  Variants of one base share the source path and differ ONLY in:
+    0 FileModified | 1 = 0 but is_synthetic | 2 class (FileCreated) | 3 is_directory (DirModified) |
+    4 FileMoved to <src>d | 5 = 4 but dest_path <src>x | 6 = 4 but is_synthetic | 7 = 4 but DirMoved."""
+    from watchdog import events as E
+    base, v = divmod(int(x), NVAR)
+    src = f"/w{w}/e{base}"
+    if v == 0:
+        return E.FileModifiedEvent(src)
+    if v == 1:
+        return E.FileModifiedEvent(src, is_synthetic=True)
+    if v == 2:
+        return E.FileCreatedEvent(src)
+    if v == 3:
+        return E.DirModifiedEvent(src)
+    if v == 4:
+        return E.FileMovedEvent(src, src + "d")
+    if v == 5:
+        return E.FileMovedEvent(src, src + "x")
+    if v == 6:
+        return E.FileMovedEvent(src, src + "d", is_synthetic=True)
+    return E.DirMovedEvent(src, src + "d")
+
+
 def dec(ev):
+    """event -> (watch, scripted id); inverse of mk_event (every field of the event takes part)."""
     p = ev.src_path
     if isinstance(p, bytes):
         p = os.fsdecode(p)
-    if p.startswith("/w") and "/e" in p:
-        return int(p[2:p.index("/", 1)]), int(p[p.rindex("e") + 1:])
-    return -1, -1
+    if not (p.startswith("/w") and "/e" in p):
+        return -1, -1
+    w, base = int(p[2:p.index("/", 1)]), int(p[p.rindex("e") + 1:])
+    syn = bool(getattr(ev, "is_synthetic", False))
+    dest = getattr(ev, "dest_path", "") or ""
+    if ev.event_type == "modified" and not dest:
+        v = 3 if ev.is_directory else (1 if syn else 0)
+        if ev.is_directory and syn:
+            return -1, -1
+    elif ev.event_type == "created" and not ev.is_directory and not syn and not dest:
+        v = 2
+    elif ev.event_type == "moved" and dest == p + "d":
+        v = 7 if ev.is_directory else (6 if syn else 4)
+        if ev.is_directory and syn:
+            return -1, -1
+    elif ev.event_type == "moved" and dest == p + "x" and not ev.is_directory and not syn:
+        v = 5
+    else:
+        return -1, -1
+    return w, base * NVAR + v
 
 
 # ------------------------------------------------------------------------------------------------ model adapter
@@ -635,6 +680,24 @@ def oracle_c04(prog, s):
     for c in cbs:
         if c[0] not in used:
             bad.append(("spurious", f"callback {c[1:]} outside any dispatch"))
+    # "a handler never receives an event of a watch it is not registered for": registration AT THE MOMENT of the callback.
+    # A registration that a completed unschedule / remove / unschedule_all / stop took away and that no later (or
+    # overlapping) call gave back to THIS handler does not count - also when the removal was made by an earlier callback
+    # of the same dispatch (the interval test above is blind there: the status changes inside the dispatch interval).
+    for (tc, h, w, x) in cbs:
+        if 0 <= h < prog["nh"] and 0 <= w < prog["nw"] and stat[(h, w)](tc) == "out":
+            bad.append(("foreign-handler", f"handler {h} got event {x} of watch {w} at {tc} although it was not registered "
+                                           f"for that watch at that moment"))
+    # an event may be dropped by the queue only if it is identical to the immediately preceding, still undelivered one
+    skips = [(i, e[3], e[4]) for i, e in enumerate(ev) if e[1] == "putskip"]
+    for (ts, w, x) in skips:
+        pl = puts.get(w, [])
+        k = max((k for k, p in enumerate(pl) if p["t"] < ts), default=None)
+        prev = pl[k - 1] if k else None
+        ok = prev is not None and prev["e"] == x and (prev["deq"] is None or prev["deq"] > pl[k]["t"])
+        if not ok:
+            bad.append(("dropped", f"watch {w}: queued event {x} was dropped although it is not identical to the immediately "
+                                   f"preceding undelivered event ({None if prev is None else prev['e']})"))
     return bad
 
 
@@ -724,10 +787,16 @@ def gen_program(rng, kind="scripted", reentrant=None, max_calls=4, ops=None):
     for _ in range(ne):
         w = rng.randrange(nw)
         sc = scripts[str(w)]
-        if sc and rng.random() < 0.2:
+        r = rng.random()
+        if sc and r < 0.2:
             sc.append(sc[-1])          # identical to its predecessor: may be coalesced
+        elif sc and r < 0.45:
+            # a near-twin of its predecessor: same source path, differs in exactly one field (class, is_directory,
+            # dest_path, is_synthetic - see mk_event): must NOT be coalesced
+            base, v = divmod(sc[-1], NVAR)
+            sc.append(base * NVAR + rng.choice([x for x in range(NVAR) if x != v]))
         else:
-            sc.append(nxt)
+            sc.append(nxt * NVAR + rng.randrange(NVAR))
             nxt += 1
     cbs = {}
     if reentrant is None:
@@ -769,7 +838,9 @@ def gen_cohandler_program(rng):
     op = rng.choice([["unschedule", 0], ["unschedule_all"], ["stop"], ["remove", other, 0], ["unschedule", 0]])
     k = rng.randint(0, 1)
     cb = [[] for _ in range(k + 1)]
-    cb[k] = [op] + ([["schedule", other, 0]] if rng.random() < 0.25 and op[0] != "stop" else [])
+    # "restart the watch" idiom: the removing callback schedules an equal watch again, for itself or for one co-handler;
+    # every co-handler that is not re-registered must not get the event in flight (nor any later one)
+    cb[k] = [op] + ([["schedule", rng.choice([actor, other]), 0]] if rng.random() < 0.4 and op[0] != "stop" else [])
     threads = [pre]
     if rng.random() < 0.4:
         threads.append([["pause"], rng.choice([["add", other, 0], ["unschedule", nw - 1], ["remove", actor, 0]])])
